@@ -34,6 +34,23 @@ NUMPY_CASES = [
 ]
 
 
+# functions of sx/symnp_extra.py: evaluated by the shim on *constant-symbolic* arrays (so that the symbolic implementations run, not the NumPy fallback)
+NUMPY_CASES_EXTRA = [
+    ('np.sign(a)', {'a': A}), ('np.trunc(a)', {'a': A}), ('np.rint(np.array([0.5, 1.5, 2.5, -0.5, -1.5, 2.4, 2.6, float("nan")]))', {}), ('np.round(b * 1.37, 1)', {'b': B}), ('np.round(a)', {'a': A}),
+    ('np.clip(a, -1.0, 3.5)', {'a': A}), ('np.power(b, 3)', {'b': B}), ('np.power(np.abs(b), 0.5) ** 2', {'b': B}), ('np.hypot(a, b) ** 2', {'a': B, 'b': B}), ('np.isposinf(a)', {'a': A}), ('np.isneginf(-a)', {'a': A}),
+    ('np.nan_to_num(a)', {'a': A}), ('np.nan_to_num(a, nan=-1.0, posinf=9.0)', {'a': A}), ('np.floor_divide(i, 4)', {'i': I}), ('np.isin(b, [2.0, 4.0, 8.0])', {'b': B}),
+    ('np.select([b > 3, b < 1], [b, -b], 0.5)', {'b': B}), ('np.searchsorted(np.array([0.0, 1.0, 2.0, 4.0]), b)', {'b': B}), ('np.searchsorted(np.array([0.0, 1.0, 2.0, 4.0]), b, side="right")', {'b': B}),
+    ('np.searchsorted(np.array([0.0, 1.0, 2.0]), v)', {'v': V}), ('np.digitize(b, np.array([0.0, 1.0, 2.0, 4.0]))', {'b': B}), ('np.digitize(b, np.array([0.0, 1.0, 2.0, 4.0]), right=True)', {'b': B}),
+    ('np.digitize(b, np.array([4.0, 2.0, 1.0, 0.0]))', {'b': B}), ('np.digitize(v, np.array([0.0, 2.0]))', {'v': V}), ('np.swapaxes(b, 0, 1)', {'b': B}), ('np.roll(b, 1, axis=1)', {'b': B}),
+    ('np.roll(b, -2, axis=0)', {'b': B}), ('np.roll(b, 5)', {'b': B}), ('np.tile(b, (2, 1))', {'b': B}), ('np.tile(b, 2)', {'b': B}), ('np.dstack([b, b]).shape', {'b': B}), ('np.atleast_2d(v).shape', {'v': V}),
+    ('np.take(b, [0, 2], axis=1)', {'b': B}), ('np.take(b, [1, 5, 7])', {'b': B}), ('np.cumsum(b)', {'b': B}), ('np.cumsum(b, axis=1)', {'b': B}), ('np.cumsum(i, axis=0)', {'i': I}), ('np.diff(b, axis=1)', {'b': B}),
+    ('np.diff(b, axis=0)', {'b': B}), ('np.diff(v)', {'v': V}), ('np.sort(b, axis=1)', {'b': B}), ('np.sort(b, axis=0)', {'b': B}), ('np.flatnonzero(i)', {'i': I}), ('np.dot(v2, v2)', {'v2': {'data': [1.0, 2.0, -3.0], 'dtype': 'float64'}}),
+    ('np.dot(b, b.T)', {'b': B}), ('np.outer(v2, v2)', {'v2': {'data': [1.0, 2.0, -3.0], 'dtype': 'float64'}}), ('np.average(b, weights=np.ones((3, 4)))', {'b': B}), ('np.quantile(b, 0.25)', {'b': B}),
+    ('np.nanpercentile(v, [25, 50])', {'v': V}), ('np.nanmedian(v)', {'v': V}), ('np.nanargmax(v)', {'v': V}), ('np.nanargmin(v)', {'v': V}), ('np.apply_along_axis(lambda r: r.sum(), 1, b)', {'b': B}),
+    ('np.pad(b, 1, mode="edge")', {'b': B}), ('np.pad(b, ((0, 2), (1, 0)), mode="edge")', {'b': B}),
+]
+
+
 def _enc(v):
     from sx import symnp, core as sc
     import numpy as np
@@ -70,19 +87,67 @@ def _close(a, b):
     return a == b
 
 
-def shim_numpy(cases):
+def shim_numpy(cases, lift=False):
+    """lift=True: every finite input value is a fresh solver variable pinned to its constant by an assumption, so the *symbolic* code paths run
+    (comparisons fork and are decided by the solver); outputs are evaluated under the model of the single feasible path"""
     from sx import symnp, core as sc
-    sc.EX = sc.Explorer()
+    import z3
     out = []
     for expr, inputs in cases:
-        env = {'np': symnp, 'nan': math.nan, 'inf': math.inf, 'float': float}
-        for k, spec in inputs.items():
-            env[k] = symnp.asarray(spec['data'], spec['dtype'])
+        if not lift:
+            sc.EX = sc.Explorer()
+            env = {'np': symnp, 'nan': math.nan, 'inf': math.inf, 'float': float}
+            for k, spec in inputs.items():
+                env[k] = symnp.asarray(spec['data'], spec['dtype'])
+            try:
+                out.append(_enc(eval(expr, env)))
+            except Exception as e:
+                out.append({'exc': type(e).__name__})
+            continue
+        ex = sc.Explorer()
+        sc.set_axioms(sqrt_exact=True)
+        res = []
+
+        def fn(ex, expr=expr, inputs=inputs, res=res):
+            env = {'np': symnp, 'nan': math.nan, 'inf': math.inf, 'float': float}
+            for k, spec in inputs.items():
+                a = symnp.asarray(spec['data'], spec['dtype'])
+                vals = []
+                for i, v in enumerate(a.flat_values()):
+                    if isinstance(v, float) and not math.isfinite(v):
+                        vals.append(v)
+                    elif a.dtype.kind == 'f':
+                        x = sc.SF(False, z3.Real('%s_%d' % (k, i)))
+                        ex.assume(x == float(v))
+                        vals.append(x)
+                    else:
+                        x = sc.SI(z3.Int('%s_%d' % (k, i)))
+                        ex.assume(x == int(v))
+                        vals.append(x)
+                env[k] = symnp.SymArray.from_list(vals, a.shape, a.dtype)
+            r = eval(expr, env)
+            m = ex.ensure_model()
+            res.append(_enc_model(m, r))
+        ex.worklist = [[]]
         try:
-            out.append(_enc(eval(expr, env)))
+            ex.explore(fn, slice_s=60)
+            out.append(res[0] if len(res) == 1 else {'exc': 'paths', 'msg': '%d feasible paths' % len(res)})
         except Exception as e:
-            out.append({'exc': type(e).__name__})
+            out.append({'exc': type(e).__name__, 'msg': str(e)[:160]})
     return out
+
+
+def _enc_model(m, v):
+    from sx import symnp, core as sc
+    if isinstance(v, symnp.MaskedSel):
+        v = v._mat()
+    if isinstance(v, symnp.SymArray):
+        return {'shape': list(v.shape), 'kind': v.dtype.kind, 'vals': [_enc_model(m, x) for x in v.flat_values()]}
+    if isinstance(v, (tuple, list)):
+        return [_enc_model(m, x) for x in v]
+    if sc.is_sym(v):
+        v = sc.ev(m, v)
+    return _enc(v)
 
 
 def dask_cases():
@@ -137,6 +202,12 @@ def main():
         if not _close(a, b):
             bad += 1
             print("selftest: numpy shim mismatch:", expr, "| shim", str(a)[:200], "| real", str(b)[:200])
+    real = w.script('numpy_eval', NUMPY_CASES_EXTRA)
+    mine = shim_numpy(NUMPY_CASES_EXTRA, lift=True)
+    for (expr, _), a, b in zip(NUMPY_CASES_EXTRA, mine, real):
+        if not _close(a, b):
+            bad += 1
+            print("selftest: numpy shim (extra) mismatch:", expr, "| shim", str(a)[:200], "| real", str(b)[:200])
     dc = dask_cases()
     real = w.script('dask_eval', dc)
     mine = shim_dask(dc)
@@ -145,5 +216,5 @@ def main():
             bad += 1
             print("selftest: dask shim mismatch:", c[0], c[3], c[4], "| shim", str(a)[:200], "| real", str(b)[:200])
     wire.close_worker()
-    print("selftest: %d numpy expressions, %d dask cases, %d mismatches" % (len(NUMPY_CASES), len(dc), bad))
+    print("selftest: %d numpy expressions, %d dask cases, %d mismatches" % (len(NUMPY_CASES) + len(NUMPY_CASES_EXTRA), len(dc), bad))
     return 3 if bad else 0
